@@ -311,17 +311,16 @@ pub fn maybe_park(rng: &mut Rng, replicas: &mut [crate::session::Replica], pct: 
         return;
     }
     let k = rng.below(r.steps.len());
+    let len = len_of(&r.steps[k].input);
     let plan = &mut r.steps[k].plan;
     if plan.slice {
         *plan = crate::simreader::Plan::whole();
     }
     if plan.cuts.is_empty() {
         // the document must arrive in pieces, or the only places to stop are before its first and after its last byte
-        let len = len_of(&r.steps[k].input);
         let n = rng.range(5, 60);
         plan.cuts = (1..len).filter(|i| i % n == 0).collect();
     }
-    let plan = &mut r.steps[k].plan;
     plan.park_at = Some(rng.below(plan.cuts.len() + 2));
     r.role = format!("parking-{}", r.role);
 }
